@@ -36,11 +36,13 @@ DEFAULT_ENCODE_SET = frozenset(b' "#<>?`')
 Does not include U+0000 to U+001F nor U+001F or above.
 '''
 
-PASSWORD_ENCODE_SET = DEFAULT_ENCODE_SET | frozenset(b'/@\\%')
+PASSWORD_ENCODE_SET = DEFAULT_ENCODE_SET | frozenset(b'/@\\%[]')
 '''Encoding set for passwords.
 
 The percent sign is included because user names and passwords are stored
-percent-decoded: a literal ``%`` must be written back as ``%25``.
+percent-decoded: a literal ``%`` must be written back as ``%25``. Brackets
+are included because they delimit an IPv6 host: ``http://[u@h/`` must not
+keep a bare bracket in front of the host.
 '''
 
 USERNAME_ENCODE_SET = PASSWORD_ENCODE_SET | frozenset(b':')
